@@ -79,12 +79,15 @@ def step (s : S) (toks : List String) : S × List String :=
       let r := evStep s e mk ts res hash drop
       (r.1, [placedObs r.1 r.2])
     | _, _, _, _, _, _ => (s, ["bad-op"])
-  | ["am", ts, res, hash] =>
-    match ts.toNat?, res.toNat?, hash.toNat? with
-    | some ts, some res, some hash =>
+  | ["rc", hw, hws] => match hw.toNat?, hws.toNat? with
+    | some hw, some hws => (remoteConfig s hw hws, ["rc ok"])
+    | _, _ => (s, ["bad-op"])
+  | ["am", ts, res, hash, scr] =>
+    match ts.toNat?, res.toNat?, hash.toNat?, (if scr == "0" || scr == "1" then some scr else none) with
+    | some ts, some res, some hash, some _ =>
       let r := amStep s ts res hash
       (r.1, [placedObs r.1 r.2])
-    | _, _, _ => (s, ["bad-op"])
+    | _, _, _, _ => (s, ["bad-op"])
   | ["flush", ms] => match ms.toNat? with
     | some ms =>
       let ret := flushRet s (ms / 1000)
